@@ -170,6 +170,7 @@ def run(ctx):
     r.rule("S8", "doctype identifiers are checked for the quote they are written in", floor=2)
     r.rule("S9", "the '--' check dominates comment emission", floor=1)
     text_rules(ctx)
+    cr_and_leading_lf(ctx)
     rawtext_rules(ctx)
     child_in_rawtext_rule(ctx)
     attr_key_rule(ctx)
@@ -182,28 +183,89 @@ def run(ctx):
     c07.escaping(ctx)
 
 
+def _free_flags(arm):
+    """names read in the text arm that are plain local flags other than the token / type / in_cdata (bound False when evaluating)"""
+    names = {n.id for st in arm.body for n in ast.walk(st) if isinstance(n, ast.Name) and isinstance(n.ctx, ast.Load)}
+    return sorted(names - {"type", "in_cdata", "token", "self", "escape", "True", "False", "None"})
+
+
+def _text_arm(f):
+    """the `elif type in ("Characters", "SpaceCharacters")` arm of the token loop"""
+    for n in ast.walk(f.node):
+        if isinstance(n, ast.If) and isinstance(n.test, ast.Compare) and norm(n.test.left) == "type":
+            consts = {c.value for c in ast.walk(n.test.comparators[0]) if isinstance(c, ast.Constant)}
+            if consts == {"Characters", "SpaceCharacters"}:
+                return n
+    return None
+
+
+def emitted_text(ctx, f, arm, ttype, in_cdata, data, extra_env=None):
+    """what the text arm writes for one token, evaluated (self.encode / encodeStrict are the identity on str when no encoding is
+    set; xml.sax.saxutils.escape is the standard library's documented pure function): (output string, [serializeError texts])"""
+    from xml.sax.saxutils import escape as sax_escape
+    from ..partition import MiniInterp, Opaque
+    ce = ctx.ce
+    out, errs = [], []
+
+    def hook(node, local):
+        if isinstance(node, ast.Call):
+            fn = norm(node.func)
+            if fn in ("self.encode", "self.encodeStrict") and len(node.args) == 1:
+                return ce.eval(node.args[0], f.module, local)
+            if fn == "escape" and f.module.imports.get("escape") == ("xml.sax.saxutils", "escape"):
+                args = [ce.eval(a, f.module, local) for a in node.args]
+                return sax_escape(*args)
+        return NotImplemented
+
+    def stmt_hook(st, o, interp):
+        if isinstance(st, ast.Expr) and isinstance(st.value, ast.Yield):
+            out.append(interp.eval_expr(st.value.value, o.env))
+            return False
+        if isinstance(st, ast.Expr) and isinstance(st.value, ast.Call) and norm(st.value.func) == "self.serializeError":
+            errs.append(norm(st.value))
+            return False
+        return NotImplemented
+    env = {"type": ttype, "in_cdata": in_cdata, "token": {"type": ttype, "data": data}, "self": Opaque("self")}
+    env.update(extra_env or {})
+    MiniInterp(ce, f.module, expr_hook=hook, stmt_hook=stmt_hook).run(arm.body, env)
+    return "".join(out), errs
+
+
 def text_rules(ctx):
     r = ctx.r
     f, cfg = serialize_cfg(ctx)
     tm = tokmodel(ctx)
     ys = [y for y in yields(cfg) if type_arm(cfg, y, {"Characters", "SpaceCharacters"})]
-    if len(ys) != 2:
-        raise AnalysisError("serialize: expected two text emissions, found %d" % len(ys))
-    imp = f.module.imports.get("escape")
-    esc_ok = imp == ("xml.sax.saxutils", "escape")
-    escaped = [y for y in ys if norm(y.ast.value.value) == "self.encode(escape(token['data']))"]
     raw = [y for y in ys if norm(y.ast.value.value) == "self.encode(token['data'])"]
-    # the raw emission must be dominated by `type == SpaceCharacters or in_cdata`
-    def raw_guard(n, lab):
-        return n.kind == "test" and lab is True and norm(n.ast) in ("type == 'SpaceCharacters'", "in_cdata")
-    ok = len(escaped) == 1 and len(raw) == 1 and esc_ok and cfg.dominated_by(raw[0], raw_guard)
+    arm = _text_arm(f)
     delims = data_delimiters(tm) - {"\x00"}
-    covered = {"&", "<", ">"}      # documented behaviour of xml.sax.saxutils.escape
-    r.check("S1", ok and delims <= covered, "text-escape", f.where,
-            "text of an ordinary element can reach the output unescaped (escape import=%s, delimiters of the data state %s)"
-            % (imp, sorted(delims)), detail={"data_state_delimiters": sorted(delims), "escaped_by": sorted(covered)})
     r.check("S1", set("&<") <= delims, "delimiters-computed", "_tokenizer.py",
             "the tokenizer model no longer reports & and < as data-state delimiters: %s" % sorted(delims))
+    if arm is None:
+        r.idiom("S1", False, "text-escape", f.where, "serialize: the arm for character tokens was not found")
+    else:
+        # S1: outside raw-text elements no data-state delimiter reaches the output as itself
+        extra = {}
+        for nm in _free_flags(arm):
+            extra[nm] = False
+        for ttype, chars in (("Characters", sorted(delims | {"a"})), ("SpaceCharacters", [" ", "\t", "\n", "\x0c"])):
+            for c in chars:
+                key = "text-escape[%s %r]" % (ttype, c)
+                try:
+                    got, errs = emitted_text(ctx, f, arm, ttype, False, "x" + c + "y", extra)
+                except Exception as e:      # noqa: BLE001
+                    r.idiom("S1", False, key, f.where, "text emission not decidable for %r (%s)" % (c, str(e)[:80]))
+                    continue
+                if c in delims:
+                    body = got[1:-1] if got.startswith("x") and got.endswith("y") else None
+                    ok = body is not None and c != body and (c not in body or (c == "&" and body.startswith("&") and body.endswith(";"))) \
+                        and body.startswith("&") and body.endswith(";")
+                    r.check("S1", ok, key, "%s:%d" % (REL, arm.lineno),
+                            "the character %r in the text of an ordinary element is written as %r: a parser reading the output takes it for markup / "
+                            "the start of a character reference" % (c, got), detail={"written": got})
+                else:
+                    r.check("S1", got == "x" + c + "y", key, "%s:%d" % (REL, arm.lineno),
+                            "the character %r in the text of an ordinary element is written as %r: text is altered" % (c, got), detail={"written": got})
     # S3
     if raw:
         def lt_slash(n):
@@ -218,6 +280,98 @@ def text_rules(ctx):
         par = cfg.reach_backward(raw, lambda n: n in tests, edge_ok)
         r.check("S3", bool(tests) and cfg.entry.id not in par, "lt-slash-check", "%s:%d" % (REL, raw[0].lineno),
                 "raw text can be emitted without checking it for '</'", detail={"dominated": True})
+
+
+def cr_and_leading_lf(ctx):
+    """S10: U+000D cannot be written as itself -- the input stream of every HTML parser turns CR and CR LF into LF before
+    tokenising, so a CR in text or in an attribute value (it gets into a tree through `&#13;`) has to be written as a character
+    reference, or reported.  S11: the parser drops one LF directly after the start tag of pre, textarea and listing, so text of
+    such an element that itself begins with LF has to be preceded by an extra LF (the standard's serialisation algorithm says so)."""
+    r = ctx.r
+    if "S10" not in r.rules:
+        r.rule("S10", "U+000D in text and attribute values is written as a character reference (or reported): it does not survive input-stream preprocessing", floor=4)
+        r.rule("S11", "text that begins with LF directly after a pre / textarea / listing start tag is preceded by an extra LF", floor=3)
+    f, cfg = serialize_cfg(ctx)
+    arm = _text_arm(f)
+    if arm is None:
+        r.idiom("S10", False, "cr-in-text", f.where, "serialize: the arm for character tokens was not found")
+        return
+    extra = {nm: False for nm in _free_flags(arm)}
+    if True:
+            # S10: U+000D cannot be written as itself -- every parser's input stream turns CR (and CR LF) into LF before tokenising
+            for ttype, data in (("Characters", "x\ry"), ("SpaceCharacters", "\r"), ("SpaceCharacters", " \r\n")):
+                key = "cr-in-text[%s %r]" % (ttype, data)
+                try:
+                    got, errs = emitted_text(ctx, f, arm, ttype, False, data, extra)
+                except Exception as e:      # noqa: BLE001
+                    r.idiom("S10", False, key, f.where, "text emission not decidable (%s)" % str(e)[:80])
+                    continue
+                r.check("S10", "\r" not in got or bool(errs), key, "%s:%d" % (REL, arm.lineno),
+                        "a U+000D in %s text is written as itself (%r) and no error is reported: the input stream of the parser that reads the "
+                        "output turns it into U+000A, so `<p>x&#13;y` comes back as `x\\ny`" % ("white-space" if ttype == "SpaceCharacters" else "ordinary", got),
+                        detail={"written": got})
+    # attribute values: on every path the value written has had its CR replaced by a character reference
+    def mentions_v(y):
+        return any(isinstance(x, ast.Name) and x.id == "v" for x in ast.walk(y.ast.value.value))
+    ys = [y for y in yields(cfg) if mentions_v(y)]
+
+    def cr_repl(n):
+        if not (n.kind == "stmt" and isinstance(n.ast, ast.Assign) and norm(n.ast.targets[0]) == "v" and isinstance(n.ast.value, ast.Call)
+                and norm(n.ast.value.func) == "v.replace" and len(n.ast.value.args) == 2):
+            return False
+        a, b = (ctx.ce.try_eval(x, f.module) for x in n.ast.value.args)
+        return a == "\r" and isinstance(b, str) and b.lower() in ("&#13;", "&#xd;", "&#x0d;", "&#013;")
+    if not ys:
+        r.idiom("S10", False, "cr-in-attribute-value", f.where, "serialize: attribute value emissions not found")
+    else:
+        bad = cfg.must_precede(ys, cr_repl)
+        r.check("S10", not bad, "cr-in-attribute-value", "%s:%d" % (REL, ys[0].lineno),
+                "an attribute value is written without replacing U+000D by a character reference: `<p title=\"a&#13;b\">` is written with a raw "
+                "CR, which the input stream of the parser reading it turns into U+000A", detail={"on_every_path": not bad})
+    # S11: evaluate the arm for the first text token after a start tag of pre / textarea / listing / div
+    starts = [n for n in ast.walk(f.node) if isinstance(n, ast.If) and isinstance(n.test, ast.Compare) and norm(n.test.left) == "type" and
+              {c.value for c in ast.walk(n.test.comparators[0]) if isinstance(c, ast.Constant)} == {"StartTag", "EmptyTag"}]
+    flags = _free_flags(arm)
+    # a flag the start-tag arm sets from the element name and the text arm reads
+    setters = {}
+    # a flag may be a per-iteration copy of a variable that the start-tag arm sets (`first = pending; pending = False` at the top of the loop)
+    copies = {}
+    for a in ast.walk(f.node):
+        if isinstance(a, ast.Assign) and len(a.targets) == 1 and isinstance(a.targets[0], ast.Name) and a.targets[0].id in flags and \
+                isinstance(a.value, ast.Name):
+            copies[a.value.id] = a.targets[0].id
+    if starts:
+        for a in (x for st in starts[0].body for x in ast.walk(st)):
+            if isinstance(a, ast.Assign) and len(a.targets) == 1 and isinstance(a.targets[0], ast.Name):
+                tid = a.targets[0].id
+                if tid in flags:
+                    setters[tid] = a.value
+                elif tid in copies:
+                    setters[copies[tid]] = a.value
+    for elem in ("pre", "textarea", "listing", "div"):
+        key = "leading-lf[%s]" % elem
+        if not setters:
+            r.idiom("S11", False, key, "%s:%d" % (REL, arm.lineno), "no state is carried from a start tag to the text that follows it",
+                    wrong=[(not flags, "the text of <%s> is written as it is: `<%s>\\n\\nx</%s>` (text \"\\nx\" in the tree) is written as `<%s>\\nx`, and the "
+                                       "parser drops the LF after the start tag: the text comes back as \"x\"" % (elem, elem, elem, elem))])
+            continue
+        env = dict(extra)
+        try:
+            for nm, val in setters.items():
+                env[nm] = ctx.ce.eval(val, f.module, {"name": elem, "type": "StartTag", "token": {"name": elem, "type": "StartTag", "data": {}}})
+            got, errs = emitted_text(ctx, f, arm, "Characters", False, "\nx", env)
+            got_sp, _ = emitted_text(ctx, f, arm, "SpaceCharacters", False, "\n", env)
+        except Exception as e:      # noqa: BLE001
+            r.idiom("S11", False, key, "%s:%d" % (REL, arm.lineno), "first text after <%s> not decidable (%s)" % (elem, str(e)[:80]))
+            continue
+        if elem == "div":
+            r.check("S11", got == "\nx" and got_sp == "\n", key, "%s:%d" % (REL, arm.lineno),
+                    "text beginning with LF directly after <div> is written as %r / %r: no parser drops a newline there, a character is added"
+                    % (got, got_sp), detail={"written": got})
+            continue
+        r.check("S11", got == "\n\nx" and got_sp == "\n\n", key, "%s:%d" % (REL, arm.lineno),
+                "text beginning with LF directly after <%s> is written as %r / %r: the parser drops the first LF after the start tag, so the "
+                "text loses its first character" % (elem, got, got_sp), detail={"written": got})
 
 
 def rawtext_rules(ctx):
@@ -399,6 +553,10 @@ def mutants():
     return [
         T("child-check-starttag-only", REL, "                elif in_cdata:\n                    self.serializeError(\"Unexpected child element of a CDATA element\")\n                for (_, attr_name), attr_value",
           "                elif in_cdata and type == \"StartTag\":\n                    self.serializeError(\"Unexpected child element of a CDATA element\")\n                for (_, attr_name), attr_value", "S4"),
+        T("escape-only-lt", REL, "                    yield self.encode(escape(token[\"data\"]))", "                    yield self.encode(token[\"data\"].replace(\"<\", \"&lt;\"))", "S1"),
+        T("leading-lf-not-doubled", REL, "                if first_in_pre and token[\"data\"].startswith(\"\\n\"):", "                if False:", "S11"),
+        T("leading-lf-any-element", REL, "                after_pre = type == \"StartTag\" and name in (\"pre\", \"textarea\", \"listing\")", "                after_pre = type == \"StartTag\"", "S11"),
+        T("leading-lf-no-textarea", REL, "name in (\"pre\", \"textarea\", \"listing\")", "name in (\"pre\", \"listing\")", "S11"),
         T("no-escape", REL, "                    yield self.encode(escape(token[\"data\"]))", "                    yield self.encode(token[\"data\"])", "S1"),
         T("raw-add-title", "constants.py", "rcdataElements = frozenset([\n    'style',", "rcdataElements = frozenset([\n    'title',\n    'style',", "S2"),
         T("raw-drop-xmp", "constants.py", "    'script',\n    'xmp',\n    'iframe',", "    'script',\n    'iframe',", "S2"),
@@ -418,4 +576,8 @@ def preserving():
     from ..selftest import TextMutant as T
     return [
         T("escape-via-local", REL, "                    yield self.encode(escape(token[\"data\"]))", "                    yield self.encode(escape(token['data']))", None),
+        T("escape-local-variable", REL, "                    yield self.encode(escape(token[\"data\"]))", "                    text = escape(token[\"data\"])\n                    yield self.encode(text)", None),
+        T("escape-with-entities", REL, "                    yield self.encode(escape(token[\"data\"]))", "                    yield self.encode(escape(token[\"data\"], {\"\\r\": \"&#13;\"}))", None),
+        T("text-arms-split", REL, "                if type == \"SpaceCharacters\" or in_cdata:\n                    if in_cdata and token[\"data\"].find(\"</\") >= 0:\n                        self.serializeError(\"Unexpected </ in CDATA\")\n                    yield self.encode(token[\"data\"])\n",
+          "                if in_cdata:\n                    if token[\"data\"].find(\"</\") >= 0:\n                        self.serializeError(\"Unexpected </ in CDATA\")\n                    yield self.encode(token[\"data\"])\n                elif type == \"SpaceCharacters\":\n                    yield self.encode(token[\"data\"])\n", None),
     ]
